@@ -286,7 +286,7 @@ func guardedByFieldFact(c *Ctx, fn *ssa.Function, target ssa.Instruction, field 
 	seen := false
 	pr := &PathRule{
 		Edge: func(pc *PathCtx, s uint64, from *ssa.BasicBlock, si int) (uint64, bool) {
-			for _, f := range edgeFacts(from, si) {
+			for _, f := range pc.edgeFacts(from, si) {
 				if _, isRead := fieldRead(f.X, field); isRead {
 					if b, isB := constBool(f.Y); isB {
 						if (b == f.Eq) == want {
@@ -411,7 +411,7 @@ func ruleR06cd(c *Ctx) {
 				return s
 			},
 			Edge: func(pc *PathCtx, s uint64, from *ssa.BasicBlock, si int) (uint64, bool) {
-				for _, f := range edgeFacts(from, si) {
+				for _, f := range pc.edgeFacts(from, si) {
 					if f.X == ssa.Value(runnerCall) && isNilConst(f.Y) {
 						if f.Eq {
 							return (s | okE) &^ errE, true
@@ -525,7 +525,7 @@ func ruleR06cd(c *Ctx) {
 					idx := i
 					pr := &PathRule{
 						Edge: func(pc *PathCtx, s uint64, from *ssa.BasicBlock, si int) (uint64, bool) {
-							for _, f := range edgeFacts(from, si) {
+							for _, f := range pc.edgeFacts(from, si) {
 								if e, ok := f.X.(*ssa.Extract); ok && e.Tuple == ssa.Value(sel) && e.Index == 0 {
 									if n, ok := constInt(f.Y); ok && int(n) == idx && f.Eq {
 										return s | 1, true
@@ -748,7 +748,7 @@ func ruleR06f(c *Ctx) {
 				return s
 			},
 			Edge: func(pc *PathCtx, s uint64, from *ssa.BasicBlock, si int) (uint64, bool) {
-				for _, f := range edgeFacts(from, si) {
+				for _, f := range pc.edgeFacts(from, si) {
 					if e, ok := f.X.(*ssa.Extract); ok && isNilConst(f.Y) && !f.Eq {
 						if call, ok := e.Tuple.(*ssa.Call); ok {
 							if _, ei, ok := m.appendCall(c, call); ok && ei == e.Index {
